@@ -41,6 +41,7 @@ static struct scfg
     int trigger;
     long camfail, stofail;
     int slow, pace;
+    int camstop; // the camera's stop takes this many extra scheduling steps (a real camera's stop may block for a while)
     int zero_at; // camera returns "no data" (nbytes 0) once at this frame index (>=0)
 } SC[MAXS];
 static int nstreams = 1;
@@ -90,6 +91,24 @@ flush_trace(void)
         fprintf(f, "%s%d", i ? "," : "", ids[i]);
     fprintf(f, "]}\n");
     fclose(f);
+}
+
+#include <signal.h>
+#include <fcntl.h>
+// A crash of the code under test (SIGSEGV/SIGBUS/SIGABRT/SIGFPE) is recorded as an event; the trace so far is kept.
+static void
+on_crash(int sig)
+{
+    char tail[96];
+    int n = snprintf(tail, sizeof tail, "{\"e\":\"Crash\",\"sig\":%d}\n", sig);
+    int fd = open(outpath, O_WRONLY | O_CREAT | O_TRUNC, 0644);
+    if (fd >= 0) {
+        ssize_t w = write(fd, EVB, evlen);
+        w = write(fd, tail, (size_t)n);
+        (void)w;
+        close(fd);
+    }
+    _exit(0);
 }
 
 static const char* pending_api = "";
@@ -231,7 +250,8 @@ c_stop(struct Camera* c)
     m->running = 0;
     ev("{\"e\":\"CamStop\",\"s\":%d,\"hd\":%d}", m->s, m->h);
     vs_signal(&trig_obj[m->s]);
-    vs_yield("cam_stop");
+    for (int i = 0; i <= SC[m->s].camstop; i++)
+        vs_yield("cam_stop");
     return Device_Ok;
 }
 static enum DeviceStatusCode
@@ -618,6 +638,15 @@ run_prog(void)
         } else if (!strcmp(op, "join2")) {
             while (!aborter_done)
                 vs_yield_low("wait_aborter");
+        } else if (!strcmp(op, "pollstate")) {
+            // poll acquire_get_state until the runtime no longer reports Running (a client waiting for a finite
+            // acquisition to finish by itself, without calling stop), then report the state seen
+            int st = (int)acquire_get_state(rt);
+            for (int j = 0; j < 4000 && st == DeviceState_Running; j++) {
+                vs_yield_low("client_pollstate");
+                st = (int)acquire_get_state(rt);
+            }
+            ev("{\"e\":\"Api\",\"op\":\"state\",\"ph\":\"ret\",\"rc\":0,\"st\":%d}", st);
         } else if (!strcmp(op, "state")) {
             int st = (int)acquire_get_state(rt);
             ev("{\"e\":\"Api\",\"op\":\"state\",\"ph\":\"ret\",\"rc\":0,\"st\":%d}", st);
@@ -748,6 +777,7 @@ main(int argc, char** argv)
                 else if (!strcmp(k, "stofail")) SC[s].stofail = atol(v);
                 else if (!strcmp(k, "slow")) SC[s].slow = atoi(v);
                 else if (!strcmp(k, "pace")) SC[s].pace = atoi(v);
+                else if (!strcmp(k, "camstop")) SC[s].camstop = atoi(v);
                 else if (!strcmp(k, "zero")) SC[s].zero_at = atoi(v);
             }
         } else if (!strcmp(tok, "prog")) {
@@ -768,6 +798,10 @@ main(int argc, char** argv)
     cfg.nreplay = nsched_in;
     vs_init(&cfg, on_hang);
     vs_set_thread_hook(thread_hook);
+    signal(SIGSEGV, on_crash);
+    signal(SIGBUS, on_crash);
+    signal(SIGABRT, on_crash);
+    signal(SIGFPE, on_crash);
 
     ev("{\"e\":\"Reset\",\"hdr\":%d,\"cap\":%ld,\"ns\":%d,\"streams\":[{\"n\":%ld,\"avg\":%d,\"bpp\":%d,\"trig\":%d,\"fault\":%s},{\"n\":%ld,\"avg\":%d,\"bpp\":%d,\"trig\":%d,\"fault\":%s}]}",
        (int)sizeof(struct VideoFrame), (long)ring_cap, nstreams, SC[0].frames, SC[0].avg, (int)bytes_of_type(SC[0].type), SC[0].trigger,
